@@ -39,6 +39,15 @@ def dist_case(draw, tier):
     sizes = [draw(st.integers(1, 5)) for _ in range(T)]
     N = draw(st.sampled_from([1, 2, 3, 5, 8, 13, 30, 60]) if tier == "quick" else st.integers(1, 200))
     c = {"keys": keys, "weights": w, "sizes": sizes, "N": N, "seed": draw(st.integers(0, 2 ** 32 - 1))}
+    # joint degrees taken from NumPy arrays (signed or unsigned scalars) are ordinary input as well
+    c["key_dtype"] = draw(st.sampled_from(["int", "int", "int", "int64", "uint32", "uint64"]))
+    if c["key_dtype"] == "int" and draw(st.integers(0, 9)) == 9:
+        # astronomically large degrees are still integers: totals beyond 2**53 must be patched exactly
+        i = draw(st.integers(0, len(keys) - 1))
+        j = draw(st.integers(0, T - 1))
+        keys[i][j] = 2 ** 53 + draw(st.integers(0, 40))
+        c["huge"] = True
+        c["N"] = draw(st.sampled_from([1, 2, 3, 11]))
     if draw(st.integers(0, 3)) == 0:
         # history on one loader object: sample, replace the distribution, sample again
         k2 = [list(k) for k in draw(st.lists(st.tuples(*[st.integers(0, 6)] * T), min_size=1, max_size=4, unique=True))]
@@ -67,7 +76,13 @@ def enumerated(tier, seed):
 
 def loader(case):
     from gcmpy import JointDegreeManual, JointDegreeNames as JN
-    jdd = {tuple(k): w for k, w in zip(case["keys"], case["weights"])}
+    dt = case.get("key_dtype", "int")
+    if dt == "int":
+        conv = int
+    else:
+        import numpy as np
+        conv = getattr(np, dt)
+    jdd = {tuple(conv(x) for x in k): w for k, w in zip(case["keys"], case["weights"])}
     return call("construct", JointDegreeManual, {JN.JDD: jdd, JN.MOTIF_SIZES: list(case["sizes"])}), jdd
 
 
@@ -98,7 +113,7 @@ def check(case):
     sizes = case["sizes"]
     if case.get("stat"):
         return verify(ld, jdd, sizes, case["N"], case["seed"], stat=True, case=case)
-    info = verify(ld, jdd, sizes, case["N"], case["seed"])
+    info = verify(ld, jdd, sizes, case["N"], case["seed"], flags=case)
     th = case.get("then")
     if th:
         new = {}
@@ -131,11 +146,13 @@ def check(case):
     return info
 
 
-def verify(ld, jdd, sizes, N, seed, stat=False, case=None, tag=""):
+def verify(ld, jdd, sizes, N, seed, stat=False, case=None, tag="", flags=None):
     from gcmpy import JointDegreeEmpirical, JointDegreeNames as JN, GCMAlgorithmFast, GCMAlgorithmNames as GN, clique_motif
     keys = list(jdd.keys())
     T = len(sizes)
     case = case or {"weights": list(jdd.values()), "keys": [list(k) for k in keys], "sizes": sizes, "seed": seed}
+    if flags:
+        case = {**case, "huge": flags.get("huge"), "key_dtype": flags.get("key_dtype", "int")}
     with rng.seeded(seed), rng.spy_choices() as calls:
         out = call(tag + "sample", ld.sample_jds_from_jdd, N)
     if stat:
@@ -160,17 +177,21 @@ def verify(ld, jdd, sizes, N, seed, stat=False, case=None, tag=""):
         if not isinstance(e, tuple):
             raise Violation(tag + "entry-not-tuple", f"entry {e!r} is a {type(e).__name__}, not a joint degree tuple "
                                                f"(unhashable / unusable as a joint degree); sequence {out}")
-        if len(e) != T or not all(isinstance(x, int) and not isinstance(x, bool) and x >= 0 for x in e):
+        import numbers
+        if len(e) != T or not all(isinstance(x, numbers.Integral) and not isinstance(x, bool) and x >= 0 for x in e):
             raise Violation(tag + "entry-malformed", f"entry {e!r} is not {T} non-negative ints")
+    out_raw = out
+    out = [tuple(int(x) for x in e) for e in out]
+    keys = [tuple(int(x) for x in k) for k in keys]
     cols = [sum(c) for c in zip(*out)]
     for c, s in zip(cols, sizes):
         if c % s:
             raise Violation(tag + "handshake", f"column sums {cols} not divisible by motif sizes {sizes}")
     classes = set()
     raw = None
-    big = [c for c in calls if c["k"] == N and [tuple(x) for x in c["population"]] == keys]
+    big = [c for c in calls if c["k"] == N and [tuple(int(y) for y in x) for x in c["population"]] == keys]
     if len(big) == 1 and len(calls) == 1:
-        raw = [tuple(x) for x in big[0]["result"]]
+        raw = [tuple(int(y) for y in x) for x in big[0]["result"]]
         classes.add("spied_raw_draw")
         diffs = [[a - b for a, b in zip(o, r)] for o, r in zip(out, raw)]
         if any(d < 0 for row in diffs for d in row):
@@ -186,8 +207,13 @@ def verify(ld, jdd, sizes, N, seed, stat=False, case=None, tag=""):
         if not exists_decomposition(out, keys, sizes):
             raise Violation(tag + "not-minimal-perturbation", f"{out} is not N draws of {keys} plus < size added stubs per topology (sizes {sizes})")
         nt = any(e not in set(keys) for e in out)
+    if case.get("huge"):
+        classes.add("huge_degrees")
+        if nt:
+            classes.add("perturbed")
+        return {"nontrivial": bool(nt), "classes": sorted(classes)}
     # usable wherever a joint degree sequence is accepted
-    emp = call(tag + "usable-empirical", JointDegreeEmpirical, {JN.JDS: list(out), JN.MOTIF_SIZES: list(sizes)})
+    emp = call(tag + "usable-empirical", JointDegreeEmpirical, {JN.JDS: list(out_raw), JN.MOTIF_SIZES: list(sizes)})
     if abs(sum(emp.jdd.values()) - 1) > 1e-9:
         raise Violation(tag + "usable-empirical", "empirical loader of the sampled sequence does not sum to 1")
     gen = GCMAlgorithmFast({GN.MOTIF_SIZES: list(sizes), GN.BUILD_FUNCTIONS: [clique_motif] * T,
@@ -197,6 +223,8 @@ def verify(ld, jdd, sizes, N, seed, stat=False, case=None, tag=""):
     want_edges = sum(c // s * (s * (s - 1) // 2) for c, s in zip(cols, sizes))
     if len(el.edge_list) != want_edges:
         raise Violation(tag + "usable-generator", f"generator produced {len(el.edge_list)} edges from the sampled sequence, expected {want_edges}")
+    if case.get("key_dtype", "int") != "int":
+        classes.add("numpy_keys_" + case["key_dtype"])
     if 1 in sizes:
         classes.add("size_1_topology")
     if abs(sum(case["weights"]) - 1) > 1e-9:
